@@ -1,6 +1,7 @@
 // shared main(): reads descriptors from stdin, dispatches on the scalar type
 #ifndef VERIF_DRV_MAIN_H
 #define VERIF_DRV_MAIN_H
+#include "alloc_guard.h"
 #include <iostream>
 #include <csignal>
 template <typename T> void dispatch(const vh::Desc& d);
@@ -21,6 +22,8 @@ int main(int argc, char** argv)
     {
         if (line.empty() || line[0] == '#')
             continue;
+        vh::g_heap_live = (long long) vh_heap_live;
+        vh::g_heap_overruns_ptr = &vh_heap_overruns;
         vh::Desc d = vh::Desc::parse(line);
         const std::string ty = d.s("ty", "d");
         if (false) {}
